@@ -14,11 +14,14 @@ func TestVerif(t *testing.T) {
 			"After every Push the recursive (type, mode, content, link target) picture of everything under <top> except wd and tmp must equal the picture taken when the sandbox was built. " +
 			"(a) titles: every path of 1..4 segments over {a, .., ., empty, wd-sibling} x forms {relative, absolute under wd, absolute under wd's parent, absolute at the real root} x {no, trailing slash} x {plain blob, tar+gzip with unpack annotation holding one regular entry <title>/f} x wd {empty, a=file, a=dir, a=symlink to .} x {default, DisableOverwrite} (real-root form: empty wd and default only); " +
 			"a title whose lexically cleaned destination is not wd or below it must make Push fail. " +
-			"(b) tar streams, gzip-wrapped, unpack annotation, correct digest and size: every sequence of 1..3 entries over 196 entries = kinds {reg, dir, symlink, hardlink} x names {a, b, a/c, ../x, ../../x, absolute-outside, (root)} (relative to title 'n') x (links) targets {., .., a, b, a/.., b/.., l/.., b/evil, ../x, victim, absolute-outside, absolute-inside}, for wd {empty, files: n/a/c n/b, uplink: n/b and n/l -> ..}; " +
-			"plus every sequence of 1..4 entries over 17 entries (symlink x {a,b,l} x {., .., a/.., l/.., b/evil}, reg a, reg b) with title '.', wd empty. " +
-			"thorough adds: 1..4 entries over 70 entries (kinds x names {a, b, a/c, ../../x, (root)} x targets {., .., b, l/.., b/evil, victim}) with title 'n' and the three wd states; 1..5 entries over the 17 link entries with title '.' (wd empty, files); 1..5 entries over 17 entries (symlink x {a,b,l,m} x {., l/.., m/.., b/evil}, reg a) with title 'n'. " +
+			"(b) tar streams, gzip-wrapped, unpack annotation, correct digest and size, title 'n' (entry names are relative to it; wd states: empty | files: n/a/c, n/b | uplink: n/b and the internal link n/l -> ..): " +
+			"full = 182 entries = kinds {reg, dir, symlink, hardlink} x names {a, b, a/c, ../x, ../../x, absolute-outside, (the title directory itself)} x (links) targets {., .., a, b, a/.., b/.., l/.., b/evil, ../x, victim, absolute-outside, absolute-inside}; " +
+			"core = 70 entries = kinds x names {a, b, a/c, ../../x, (title dir)} x targets {., .., b, l/.., b/evil, victim}; mini = 30 entries = kinds x names {a, b, (title dir)} x targets {., l/.., b/evil, victim}; " +
+			"rootlinks = 17 entries (symlink x {a,b,l} x {., .., a/.., l/.., b/evil}, reg a, reg b) with title '.'; chain = 17 entries (symlink x {a,b,l,m} x {., l/.., m/.., b/evil}, reg a) with title 'n'. " +
+			"quick: every sequence of 1..2 entries over full and of 1..3 entries over core, each for the three wd states; 1..4 entries over rootlinks on an empty wd. " +
+			"thorough: 1..3 over full (empty wd), 1..2 over full and 1..3 over core (files, uplink), 1..4 over mini (three states), 1..5 over rootlinks and 1..5 over chain (empty wd). " +
 			"Besides the picture: when the sequence without its last entry was accepted on its own and, on the file system that run left behind, the directory that receives the last entry's name resolves (symbolic links followed by the harness's own resolver) outside wd, Push must fail; and an accepted archive must not leave a file from outside wd hard-linked inside wd. " +
-			"Not judged (counted): absolute entry names that are accepted without touching the outside; symlink targets; names inside wd but outside the title directory. " +
+			"Not judged (counted where it occurs): absolute entry names accepted without touching the outside; accepted symbolic links whose target resolves outside wd; names inside wd but outside the title directory. " +
 			"evaluations = Push calls judged; non-trivial = titles that point outside wd, and tar sequences with a link entry, a '..' name or an absolute name (distinct ones are recorded for sequences of length <= 2, longer ones are counted in nontrivial_sequences).",
 		Assumptions: []string{
 			"the process CWD is cwd/ for every Push; one worker process runs its cases one after the other (chdir and TMPDIR are process-global)",
@@ -28,7 +31,7 @@ func TestVerif(t *testing.T) {
 		},
 		Jobs:           jobs,
 		BudgetQuick:    240,
-		BudgetThorough: 1500,
+		BudgetThorough: 880,
 	})
 }
 
